@@ -46,6 +46,7 @@ package xbuf
 //@   loop 1 invariant all(j, int, 0 <= j && j < old(len(*b)) ==> (*b)[j] == old((*b)[j]))
 //@   loop 1 invariant all(j, int, old(len(*b)) <= j && j < old(len(*b))+phi1 ==> (*b)[j] == s[j-old(len(*b))])
 //@   loop 1 modifies *b
+//@   loop 1 names i
 
 //@ func (*B).Sb
 //@   property C15
@@ -58,6 +59,7 @@ package xbuf
 //@   loop 1 invariant all(j, int, 0 <= j && j < old(len(*b)) ==> (*b)[j] == old((*b)[j]))
 //@   loop 1 invariant all(j, int, old(len(*b)) <= j && j < old(len(*b))+phi1 ==> (*b)[j] == sb[j-old(len(*b))])
 //@   loop 1 modifies *b
+//@   loop 1 names i
 
 //@ func (*B).Sn
 //@   property C15
@@ -72,8 +74,10 @@ package xbuf
 //@   loop 1 invariant all(j, int, 0 <= j && j < old(len(*b)) ==> (*b)[j] == old((*b)[j]))
 //@   loop 1 invariant all(j, int, old(len(*b)) <= j && j < old(len(*b))+phi1 ==> (*b)[j] == s[j-old(len(*b))])
 //@   loop 1 modifies *b
+//@   loop 1 names i
 //@   loop 2 invariant len(s) <= phi1 && phi1 <= n && len(sb) == len(s) && len(*b) == old(len(*b))+phi1
 //@   loop 2 invariant all(j, int, 0 <= j && j < old(len(*b)) ==> (*b)[j] == old((*b)[j]))
 //@   loop 2 invariant all(j, int, old(len(*b)) <= j && j < old(len(*b))+len(s) ==> (*b)[j] == s[j-old(len(*b))])
 //@   loop 2 invariant all(j, int, old(len(*b))+len(s) <= j && j < old(len(*b))+phi1 ==> (*b)[j] == 32)
 //@   loop 2 modifies *b
+//@   loop 2 names i
